@@ -4,7 +4,7 @@
    correspondence engine). *)
 From Coq Require Import List String NArith ZArith Bool.
 From AM Require Import Rust.Ast Gen.Entry Ref.Load Ref.Sys Proofs.SysGrows Proofs.SysStatic Proofs.SysMap
-  Proofs.SysReload Proofs.SysLedger Tie.Erasure Tie.Entry Tie.Maps Rust.Script.
+  Proofs.SysReload Proofs.SysLedger Tie.Erasure Tie.Entry Tie.Maps Rust.Script Gen.Anycache Tie.Records.
 Import ListNotations.
 
 Theorem C13_casts_are_guarded_by_the_type_id :
@@ -100,3 +100,8 @@ Example C13_ledger_nonvacuous :
   cache (fst x) = [] /\ next_tok (fst x) = 5%N /\
   map (fun t => cnt t (drops (trace_of (snd x)))) [1; 2; 3; 4]%N = [1; 1; 1; 1]%nat.
 Proof. vm_compute. repeat split. Qed.
+
+(* the slow path of a load hands its entry to the map's insert and does nothing else with the map:
+   the loser of a creation race is dropped by insert, it never overwrites the winner *)
+Theorem C13_code_add_asset_loads_then_inserts : add_asset_wf Gen.Anycache.RawCache_add_asset = true.
+Proof. exact add_asset_loads_then_inserts. Qed.
